@@ -59,13 +59,15 @@ VARIANTS = {(s, p, m): f"cV{int(s)}{int(p)}{int(m)}" for s in (0, 1) for p in (0
 # ======================================================================================= systems
 def gen_phys(rng: random.Random, n: int, slm: bool, given: bool, local2: bool = False) -> dict:
     """A random label-tagged system: distinct pair distances, distinct DMM weights, two pulses."""
-    for _ in range(200):
+    for _ in range(5000):
         xs = [0.0]
         for i in range(1, n):
             xs.append(xs[-1] + rng.uniform(6.2, 9.8))
         coords = [[x, rng.uniform(-2.5, 2.5)] for x in xs]
         d = sorted(math.dist(coords[i], coords[j]) for i in range(n) for j in range(i + 1, n))
-        if all(b - a > 0.05 for a, b in zip(d, d[1:])) and d[0] > 5.5:
+        # pairs are identified by their interaction strength: close pairs must differ clearly; for far pairs
+        # (negligible, rarely needed: a site is pinned by any two identified entries of its row) a little suffices
+        if d[0] > 5.5 and all((b - a > 0.05) if a < 30.0 else (b - a > 0.0015) for a, b in zip(d, d[1:])):
             break
     else:  # pragma: no cover
         raise MachineryError("could not draw distinct pair distances")
